@@ -41,3 +41,19 @@ def run_families(chk, fams, classes, lsb0_modes=(False,), all_pos=False, mc=True
 def run_random(chk, fn, n, seed_salt, **kw):
     rng = random.Random(chk.seed * 1000003 + seed_salt)
     chk.queue([fn(rng, **kw) for _ in range(n)], f'random-{fn.__name__}')
+
+
+def run_ref_machine(chk, mc=True, procs=8, num=6, depth=8, thorough=False):
+    """spec/Ref.tla: (A) the Ref machine as a state graph - history-level invariants and action properties checked on
+    every reachable state; (B) behaviours printed by `tlc -simulate` replayed on the real classes (queued)."""
+    from concurrent.futures import ThreadPoolExecutor
+    from harness import tlc
+    with ThreadPoolExecutor(max_workers=2) as ex:
+        f = ex.submit(chk.mc, 'Ref.tla', 'MC_Ref_thorough.cfg' if thorough else 'MC_Ref.cfg', workers=8) if mc else None
+        r = tlc.simulate_par('Ref.tla', 'MC_Ref_sim.cfg', chk.wd, procs, num, depth + 3, chk.seed + 11)
+        chk.mc_runs.append({'module': 'Ref.tla', 'cfg': 'MC_Ref_sim.cfg', 'mode': f'simulate x{procs} num={num} depth={depth}',
+                            'states': r['states'], 'behaviours': len(r['hists']), 'wall_s': round(r['wall'], 2)})
+        chk.states += r['states']
+        chk.queue(edges.programs_from_histories(r['hists']), 'tlc-simulated-behaviours')
+        if f:
+            f.result()
